@@ -374,7 +374,33 @@ def run_case(case):
             "extra": {"points": len(pts)}}
 
 
-replay = run_case
+SWITCH_ZONES = ("Africa/Monrovia", "Asia/Manila", "Europe/Berlin", "America/New_York", "Australia/Lord_Howe", "Asia/Kolkata",
+                "Africa/Casablanca", "Europe/Dublin", "America/Sao_Paulo", "Pacific/Apia")
+SWITCH_WINDOWS = (((1970, 1, 1), (1980, 1, 1)), ((2000, 1, 1), (2030, 1, 1)))
+
+
+def run_switch(case):
+    """('sw', zone, w0, w1, (p1, p2)): generate under p1, switch the provider, generate the same zone and window under p2,
+    switch back and generate again - each result judged against the source zone of the provider active at that moment."""
+    _, key, w0, w1, order = case
+    fails = []
+    trans = 0
+    states = []
+    for step, provider in enumerate((order[0], order[1], order[0])):
+        r = run_case(("z", provider, key, w0, w1, False))
+        trans += r.get("trans", 1)
+        states.append(repr(r.get("state"))[:80])
+        for f in r["fails"]:
+            f = dict(f)
+            f["cls"] = f"step{step + 1}:{f['cls']}"
+            f["case"] = case
+            fails.append(f)
+    return {"state": ("sw", key, w0, w1, order, tuple(states)), "trans": trans, "nontrivial": True, "fails": fails,
+            "outcome": "switch-ok" if not any(not f.get("known") for f in fails) else "FAIL"}
+
+
+def replay(case):
+    return run_switch(case) if case[0] == "sw" else run_case(case)
 
 
 def run(ctx):
@@ -386,7 +412,7 @@ def run(ctx):
     ctx.rule = ("E-dom: every zone id (%d zoneinfo, %d pytz; quick tier: all zoneinfo zones, a seed-rotated third of the pytz zones on the default window; regeneration (4) for a seed-rotated third of the zoneinfo zones) x both providers x windows %s: well-formedness, RFC onset "
                 "interpretation and the converted zone vs the source at every point of the partition induced by source breakpoints "
                 "and generated onsets (+-1s and interior points), regeneration. non-trivial = zone with at least one transition in the "
-                "window." % (len(zi), len(pz), [f"{a}..{b}" for a, b in windows][:4]))
+                "window. E-hist: for 10 zones (incl. those on which the providers' databases disagree) generate / switch provider / generate / switch back / generate, every result judged against the then-active provider's zone." % (len(zi), len(pz), [f"{a}..{b}" for a, b in windows][:4]))
     ctx.bounds = {"windows": [f"{a}..{b}" for a, b in windows], "zoneinfo_zones": len(zi), "pytz_zones": len(pz)}
     ctx.assumptions += ["instants before the first generated onset are excluded (the component says it only works inside its window)",
                         "ground truth: TZif reader (zoneinfo) / the provider's transition table (pytz); the provider object itself is used only to place the window"]
@@ -402,3 +428,11 @@ def run(ctx):
                            (not ctx.quick) or provider == "pytz" or (ki % 3 == ctx.seed % 3 and wi == 0))
 
     ctx.explore("zones x windows", gen, run_case, recheck=False)
+
+    def gen_switch():
+        for key in SWITCH_ZONES:
+            for w0, w1 in (SWITCH_WINDOWS[:1] if ctx.quick else SWITCH_WINDOWS):
+                for order in (("zoneinfo", "pytz"), ("pytz", "zoneinfo")):
+                    yield ("sw", key, w0, w1, order)
+
+    ctx.explore("provider-switch histories", gen_switch, run_switch, recheck=False)
